@@ -55,13 +55,15 @@ class SimBroker:
     def publish(self, topic, payload, qos, retain):
         idx = self.pub_calls
         self.pub_calls += 1
+        now = self.world.sim.now if self.world is not None else 0.0
+        # the attempt is logged even when the client library then fails: the
+        # gateway did emit the command, the broker side lost it
+        self.published.append((now, topic, payload, qos, retain))
         if idx in self.pub_raise:
             self.raised["pub"] += 1
             if self.world is not None:
                 self.world.sim.count("fault_pub_raise")
             raise RuntimeError(f"simulated publish failure #{idx}")
-        now = self.world.sim.now if self.world is not None else 0.0
-        self.published.append((now, topic, payload, qos, retain))
         if self.world is not None:
             self.world.sim.ev("publish", topic, payload, qos, retain)
 
